@@ -213,10 +213,17 @@ func runStartSpin(t *tape.Tape, cfg sim.Config) (res sim.Result) {
 	case <-fired:
 	case ierr := <-done:
 		// every instantiation ended before the k-th callback: legitimate only for a deadline that passed
-		// earlier (a slow machine); the outcome is judged all the same
+		// earlier (a slow machine); the outcome is judged all the same.  (When this goroutine was slow, both
+		// channels are ready and select picked this one: then the cause HAS fired.)
+		causeFired := false
+		select {
+		case <-fired:
+			causeFired = true
+		default:
+		}
 		if ierr == nil {
 			res.Fail("wrong-error", "start function spinning, cause %d: InstantiateModule returned no error", cause)
-		} else if cause != 1 {
+		} else if cause != 1 && !causeFired {
 			res.Fail("wrong-error", "start function spinning: InstantiateModule returned %v before the cause (%d) was fired", ierr, cause)
 		}
 		return
